@@ -148,7 +148,7 @@ def main : IO UInt32 := do
   let exps : List Int := [expS * 1000000000, 0, 1, 500000000]
   let vcases : List (Str × Str × Int) := issued.flatMap fun (n, c) => (edits c).flatMap fun e => exps.flatMap fun x => [(n, e, x), (['n', 'v'], e, x)]
   let showV : Option (Str × Int) → String := fun o => match o with | none => "rejected" | some (v, t) => "ok " ++ q (v.take 20) ++ " len=" ++ toString v.length ++ " t=" ++ toString t
-  bad := bad + (← firstDiff "Validate" vcases (fun p => q p.1 ++ " " ++ q (p.2.1.take 60 ++ "…".toList ++ p.2.1.drop (p.2.1.length - 70)) ++ " expire_ns=" ++ toString p.2.2)
+  bad := bad + (← firstDiff "Validate" vcases (fun p => "cookie_name=" ++ q p.1 ++ " cookie_value=" ++ (if p.2.1.length ≤ 400 then q p.2.1 else q (p.2.1.take 60 ++ "…".toList ++ p.2.1.drop (p.2.1.length - 70)) ++ s!"(length {p.2.1.length})") ++ " expire_ns=" ++ toString p.2.2 ++ " now_ns=1000000000000000 seed=\"0123456789abcdef\" mac=toy(reverse(key#msg)++len)")
     (fun p => showM (fun r => showV (if r.2.2 then some (r.1, r.2.1) else none)) (Gen.Tr.Validate E0 ⟨p.1, p.2.1⟩ seed p.2.2))
     (fun p => showV ((validate toyMac p.1 p.2.1 seed p.2.2 E0.nowNs).map fun r => (r.1, Go.timeUnix r.2))))
   bad := bad + (← firstDiff "SignedValue" (values.flatMap fun v => stamps.map fun t => (v, t)) (fun p => q (p.1.take 10) ++ " " ++ toString p.2)
